@@ -247,6 +247,7 @@ func VerifH_proxy() {
 	obs := &vfBackendObs{}
 	fail := vfBool()
 	withDetails := false
+	failMsg := ""
 	if fail {
 		switch fc := vfChoice(4); fc {
 		case 3:
@@ -255,7 +256,9 @@ func VerifH_proxy() {
 			withDetails = true
 			vfCover("status-with-details")
 		default:
-			sc.final = status.Error([]codes.Code{codes.NotFound, codes.Canceled, codes.Unavailable}[fc], "be")
+			// the Unavailable status carries a message with a literal '%' followed by hex digits
+			failMsg = []string{"be", "be", "b%41 50%25"}[fc]
+			sc.final = status.Error([]codes.Code{codes.NotFound, codes.Canceled, codes.Unavailable}[fc], failMsg)
 		}
 		if ss {
 			sc.failAt = vfChoice(3)
@@ -332,6 +335,7 @@ func VerifH_proxy() {
 		Body:   hb, ContentLength: -1, ProtoMajor: 2}
 	if grpcKey {
 		r.Header["Grpc-Previous-Rpc-Attempts"] = []string{"2"}
+		r.Header["X-Tok-Bin"] = []string{"3q2+7w=="} // binary metadata written WITH base64 padding (non-Go clients)
 	}
 	w := newFakeRW()
 	vfWatchdog(func() {
@@ -375,7 +379,11 @@ func VerifH_proxy() {
 	vfCheck(len(gs) == 1 && gs[0] == wantCode, "the client did not receive the backend's final status code")
 	if fail && !withDetails {
 		gm, _ := w.trailer("Grpc-Message")
-		vfCheck(len(gm) == 1 && gm[0] == "be", "the client did not receive the backend's status message")
+		vfCheck(len(gm) == 1, "the client did not receive the backend's status message")
+		if len(gm) == 1 {
+			dec, ok := refPercentDecode(gm[0])
+			vfCheck(ok && string(dec) == failMsg, "the status message the client decodes differs from the backend's")
+		}
 	}
 	if withDetails {
 		db, _ := w.trailer("Grpc-Status-Details-Bin")
@@ -394,6 +402,7 @@ func VerifH_proxy() {
 	}
 	if grpcKey {
 		vfCheck(len(obs.mdGrpc) == 1 && obs.mdGrpc[0] == "2", "request metadata under a key starting with grpc- (not a protocol header) did not reach the backend")
+		vfCheck(len(obs.mdBin) == 1 && obs.mdBin[0] == "\xde\xad\xbe\xef", "binary request metadata (padded base64 on the wire) did not reach the backend byte-exact")
 	}
 	if drained || (!cs && !(fail && sc.failAt == 0)) {
 		// the backend read the whole request stream
